@@ -18,6 +18,7 @@ import sys
 OPS = ["xchg", "cmpxchg", "add_return", "sub_return", "add", "sub", "inc", "dec", "and", "or"]
 WIDTHS = [1, 2, 4, 8]
 BARRIER_OPS = ["xchg", "cmpxchg", "add_return", "sub_return"]
+STORE_OPS = ["store_sc", "store_scf", "set_mb"]      # void stores that must order a later load (litmus only + binding)
 
 REG64 = {}
 for base, names in {
@@ -261,6 +262,8 @@ def reference(op, w, cell, args):
         return None, c & a[0]
     if op == "or":
         return None, c | a[0]
+    if op in STORE_OPS:
+        return None, a[0]
     raise Internal(op)
 
 
@@ -272,7 +275,7 @@ def validate_binding(funcs, so):
     """sequential interpretation of the parsed instructions == native code == documented semantics"""
     lib = ctypes.CDLL(so)
     n = 0
-    for op in OPS:
+    for op in OPS + STORE_OPS:
         for w in WIDTHS:
             name = "probe_%s_%d" % (op, w)
             fn = getattr(lib, name)
@@ -495,7 +498,7 @@ def gen_model(op, insns, test):
     init0, args, final = 0, None, None
     rax = lambda t: "R[%d]" % (t * len(REGS))  # noqa
     if test == "sb":
-        a = {"xchg": [1], "cmpxchg": [0, 1], "add_return": [1], "sub_return": [255]}[op]
+        a = {"xchg": [1], "cmpxchg": [0, 1], "add_return": [1], "sub_return": [255]}.get(op, [1])
         procs = []
         for t in (0, 1):
             body = gen_body(insns, t, t, "p%d" % t)
@@ -584,12 +587,11 @@ def check_compiler_barrier(funcs, tag):
     return n, out
 
 
-def build_probes(repo, workdir, builtins):
+def build_probes(repo, workdir, tag, defs):
     os.makedirs(workdir, exist_ok=True)
-    tag = "builtins" if builtins else "x86"
     obj = os.path.join(workdir, "probes_%s.o" % tag)
     so = os.path.join(workdir, "probes_%s.so" % tag)
-    flags = ["-O2", "-fPIC", "-I%s/include" % repo, "-include", "%s/include/config.h" % repo] + (["-DCONFIG_RCU_USE_ATOMIC_BUILTINS"] if builtins else [])
+    flags = ["-O2", "-fPIC", "-I%s/include" % repo, "-include", "%s/include/config.h" % repo] + defs
     src = os.path.join(os.path.dirname(os.path.abspath(__file__)), "c20_probes.c")
     r = sh(["gcc"] + flags + ["-c", src, "-o", obj])
     if r.returncode:
@@ -604,9 +606,9 @@ def main():
     repo, workdir = sys.argv[1], sys.argv[2]
     res = dict(models=[], violations=[], validated=0, states=0, transitions=0)
     try:
-        for builtins in (False, True):
-            tag = "builtins" if builtins else "x86"
-            obj, so = build_probes(repo, workdir, builtins)
+        # x86 asm back-end, compiler-builtin back-end, and the x86 back-end as a pre-C11 client sees it (compat memory-order path)
+        for tag, defs in (("x86", []), ("builtins", ["-DCONFIG_RCU_USE_ATOMIC_BUILTINS"]), ("x86-gnu99", ["-std=gnu99"])):
+            obj, so = build_probes(repo, workdir, tag, defs)
             funcs = parse_objdump(obj)
             ncb, cbv = check_compiler_barrier(funcs, tag)
             res["compiler_barrier_probes"] = res.get("compiler_barrier_probes", 0) + ncb
@@ -618,13 +620,13 @@ def main():
                 res["violations"].append(dict(kind="semantics", impl=tag, message=err, replay=""))
                 continue
             work = []
-            for op in OPS:
+            for op in OPS + STORE_OPS:
                 for w in WIDTHS:
                     name = "probe_%s_%d" % (op, w)
-                    tests = ["atomicity"] + (["sb"] if op in BARRIER_OPS else [])
+                    tests = ["sb"] if op in STORE_OPS else ["atomicity"] + (["sb"] if op in BARRIER_OPS else [])
                     for test in tests:
                         pml, what = gen_model(op, funcs[name], test)
-                        work.append((op, w, name, test, pml, what, "%s_%s_%d_%s" % (tag, op, w, test)))
+                        work.append((op, w, name, test, pml, what, "%s_%s_%d_%s" % (tag.replace("-", "_"), op, w, test)))
             import concurrent.futures as cf
             with cf.ThreadPoolExecutor(int(os.environ.get("VERIF_CORES", "16"))) as ex:
                 outs = list(ex.map(lambda x: run_spin(x[4], workdir, x[6]), work))
